@@ -5,7 +5,7 @@
    then over the arguments of the call being judged in the reached state. *)
 From Coq Require Import List NArith ZArith Bool.
 From BLB Require Import Store.Bytes Store.BytesProofs Store.Model Store.Proofs Store.WF Store.Conflict Store.Mono
-     Store.Steps Store.Monotone Store.Readd Store.FaultModel Store.Faults C09.Model C09.Proofs.
+     Store.Steps Store.Monotone Store.Readd Store.FaultModel Store.Faults Store.Crash Store.CrashProofs C09.Model C09.Proofs.
 Import ListNotations.
 
 (* [FULL] Read succeeds (NoError or EOF) iff the named version is the served copy's version and then returns exactly the stored bytes of the range, otherwise returns no bytes; Stat succeeds iff the version is current and then returns the stored size, otherwise 0; reads and stats never change the state; Write succeeds iff the version is current and then the served copy is the old content overwritten at the offset with the same version, otherwise the state is unchanged except that the named tract's mod stamp IS bumped, files and disk table untouched *)
@@ -217,3 +217,29 @@ Theorem installed_copy_bytes :
     expand (rle_write [] d off) = zeros_l (N.to_nat off) ++ expand d.
 Proof. exact install_bytes_lemma. Qed.
 Print Assumptions installed_copy_bytes.
+
+(* [FULL] power loss. In the disk-call-level model of Store/Crash.v, where updates made through a handle become durable only when a handle of that file is closed successfully and any Open, Setxattr, Write or Close of any operation may fail, after every history of operations with arbitrary fault positions and arbitrary power losses, a SetVersion of a served tract that is acknowledged with NoError, whatever fault was armed for it, leaves a copy with a version at least the acknowledged one and the old content that is on stable storage, so a power loss immediately after it leaves exactly that copy on the disk, and once that disk is attached to the restarted server the tract is served at that version and a write naming any other version, in particular any older one, is refused and changes no file *)
+Theorem acked_bump_survives_power_loss :
+  forall m xs f t v cond cs' f' rv pd fl,
+    let cs := xrun (cinit m) xs in
+    open_existing (vs cs) t = Op_ok pd fl ->
+    x_set_version cs f t v cond = (cs', f', (E_OK, rv)) ->
+    exists c', (v <= c')%Z /\
+      durable_copy cs' pd t = Some (mkfile (Some c') (f_data fl)) /\
+      copy (vs cs') pd t = Some (mkfile (Some c') (f_data fl)) /\
+      copy (vs (power_loss cs')) pd t = Some (mkfile (Some c') (f_data fl)) /\
+      (forall s3, add_disk (vs (power_loss cs')) pd = (s3, E_OK) ->
+          cur s3 t = Some (mkfile (Some c') (f_data fl)) /\
+          forall v0 d off, v0 <> c' ->
+            snd (do_write s3 t v0 d off) <> E_OK /\ disks (fst (do_write s3 t v0 d off)) = disks s3).
+Proof. exact acked_bump_lemma. Qed.
+Print Assumptions acked_bump_survives_power_loss.
+
+(* [FULL] the disk-call-level model refines the sequential one. An operation issued with no fault armed returns the same result and leaves the same visible state as the step function of Store/Model.v about which all theorems above are stated, and a file with no unsynced update is untouched by a power loss *)
+Theorem crash_model_refines_sequential :
+  (forall cs o, vs (fst (x_step cs None o)) = fst (step (vs cs) o) /\
+                snd (x_step cs None o) = snd (step (vs cs) o)) /\
+  (forall cs pd t, d_find pd t (dirty cs) = None ->
+                   copy (vs (power_loss cs)) pd t = copy (vs cs) pd t).
+Proof. split; [exact x_step_nofault|exact power_loss_keeps_synced]. Qed.
+Print Assumptions crash_model_refines_sequential.
